@@ -1,4 +1,4 @@
-HOOK_COMMITS = ["012d8f9", "cf15e0d", "fd182fa"]
+HOOK_COMMITS = ["012d8f9", "cf15e0d", "fd182fa", "130f800"]
 
 WHOLE = ("trusted base: the simulation runtime (std overlay of go1.26.8, scheduler, fs shadow), the reference model of this "
          "check, porcupine where used; preemption only at synchronisation/file operations; sampling, not proof")
